@@ -201,12 +201,16 @@ def run(run: common.Run):
                 run.fail(sub, 'mask_partial removed nothing: the corrected mask equals the source mask',
                          signature=dict(kind='not-strict', proc=res.proc_crs))
                 continue
-            if whole is not None and not np.array_equal(cm, whole) and not (hv and tie_geometry(src, ref)):
-                d = np.argwhere(cm != whole)
+            tie_free = np.ones(cm.shape, bool) if not proc_ref else ~resamp.centre_tie_mask(ref, src)
+            if whole is not None and not np.array_equal(cm[tie_free], whole[tie_free]) and not (hv and tie_geometry(src, ref)):
+                d = np.argwhere((cm != whole) & tie_free)
                 run.disagree(sub, pm_line[:160], f'valid={bool(whole[tuple(d[0])])} at {d[0].tolist()}', f'valid={bool(cm[tuple(d[0])])}',
                              what=f'whole-image partial-mask model ({"reference" if proc_ref else "source"} grid) differs from the corrected mask at {len(d)} pixels')
-            if not np.array_equal(cm, expect):
-                d = np.argwhere(cm != expect)
+            # source pixels whose centre sits exactly on a reference pixel edge "fall in" either neighbour: the definition does
+            # not say which, GDAL's nearest picks one by float noise - such pixels are not compared with the definition
+            decided = np.ones(cm.shape, bool) if not proc_ref else ~resamp.centre_tie_mask(ref, src)
+            if not np.array_equal(cm[decided], expect[decided]):
+                d = np.argwhere((cm != expect) & decided)
                 rr, cc = d[0]
                 run.fail(sub, f'corrected mask differs from the full-support definition at {len(d)} pixels, e.g. ({rr},{cc}): '
                          f'corrected valid={bool(cm[rr, cc])}, definition={bool(expect[rr, cc])} (valid in corrected {int(cm.sum())}, '
